@@ -106,8 +106,15 @@ def searchRay {α} [Add α] [Sub α] [Mul α] [Div α] [Neg α] [LT α] [Decidab
 /-- all rays; `dirs` are the unit vectors `(cos, sin)` of the thetas. -/
 def searchRays {α} [Add α] [Sub α] [Mul α] [Div α] [Neg α] [LT α] [DecidableLT α] [OfNat α 0]
     (k : SearchConst α) (ofN : Nat → α) (isOr : Bool) (sample : List (α × α))
-    (alpha err maxDist : α) (dirs : List (α × α)) : Except AndOrErr (List (RayResult α)) :=
-  dirs.mapM fun cs => searchRay k ofN isOr sample alpha err maxDist cs.1 cs.2
+    (alpha err maxDist : α) : List (α × α) → Except AndOrErr (List (RayResult α))
+  | [] => .ok []
+  | cs :: rest =>
+    match searchRay k ofN isOr sample alpha err maxDist cs.1 cs.2 with
+    | .error e => .error e
+    | .ok r =>
+      match searchRays k ofN isOr sample alpha err maxDist rest with
+      | .error e => .error e
+      | .ok rs => .ok (r :: rs)
 
 /-- `AndContour.coordinates`: the searched points, then `(0, 0)`. -/
 def andClose {α} [OfNat α 0] (pts : List (α × α)) : List (α × α) := pts ++ [(0, 0)]
